@@ -34,7 +34,7 @@ func init() {
 			"the call-duration bound is computed on the fake clock from the configuration: attempts x (connection wait + dial timeout + max(request timeout, read timeout)) + retry delays + 1ms",
 			"a queue entry of a waiter that already gave up is not counted as a queued waiter (the queue is cleaned lazily)",
 		},
-		RequiredProbes: []string{"yield:acquireConn", "yield:releaseConn", "yield:closeConn", "yield:decConnsCount", "yield:queueForIdle", "yield:dialConnFor", "yield:dialConnFor.deliver", "yield:wantConn.cancel", "yield:acquireConn.woken", "yield:acquireConn.timeout", "yield:connsCleaner.scan", "waiter-delivered-by-release", "waiter-delivered-by-dial", "bad-pool-conn-retry", "cleaner-closed", "stream-release", "fault:stall", "fault:fin-mid-body", "fault:idle-fin", "fault:ctx-cancel", "dial-error", "reaped", "empty-response", "close-idle-connections"},
+		RequiredProbes: []string{"yield:acquireConn", "yield:releaseConn", "yield:closeConn", "yield:decConnsCount", "yield:queueForIdle", "yield:dialConnFor", "yield:dialConnFor.deliver", "yield:wantConn.cancel", "yield:acquireConn.woken", "yield:acquireConn.timeout", "yield:connsCleaner.scan", "waiter-delivered-by-release", "waiter-delivered-by-dial", "bad-pool-conn-retry", "cleaner-closed", "stream-release", "fault:stall", "fault:fin-mid-body", "fault:idle-fin", "fault:ctx-cancel", "dial-error", "reaped", "empty-response", "close-idle-connections", "app-client", "sched-stall"},
 	}
 }
 
@@ -67,11 +67,21 @@ type c10peer struct {
 func RunC10(ep *core.Episode) {
 	tp := ep.Tape
 	S := ep.S
+	// the first draw also selects the layer: values below 10 keep their meaning as MaxConns weights
+	// (recorded tapes), the added weight is the client.Client layer above HostClient
+	mc := tp.Weighted("maxconns", []int{4, 3, 2, 1, 2})
+	if mc == 4 {
+		if ep.Param("appclient") != "off" {
+			runC10AppClient(ep)
+			return
+		}
+		mc = 0
+	}
 	nw := core.NewNet(ep)
 	dialer := NewSimDialer(ep, nw)
 
 	// ---- configuration (swarm) ----
-	maxConns := 1 + tp.Weighted("maxconns", []int{4, 3, 2, 1})
+	maxConns := 1 + mc
 	waitT := tp.PickDur("wait", 0, 20*time.Millisecond, 2*time.Second)
 	idleDur := tp.PickDur("idledur", 10*time.Second, 100*time.Millisecond)
 	maxConnDur := tp.PickDur("conndur", 0, 0, 50*time.Millisecond)
